@@ -1,4 +1,5 @@
 import MimeModel.Model.Custom
+import MimeModel.Lemmas.DetectTie
 import MimeModel.Spec.All
 import MimeModel.Lemmas.JsonBackC
 import MimeModel.Props.C08
@@ -418,5 +419,8 @@ theorem ndjson_complete (ls : List Bytes) (h2 : 2 â‰¤ ls.length) (hall : âˆ€ l â
 
 /- non-vacuity: a two-line stream {"a":1} LF 2 -/
 example : ndjson [0x7B, 0x22, 0x61, 0x22, 0x3A, 0x31, 0x7D, 0x0A, 0x32] 0 = true := by decide
+
+/-- regenerated tie: `Detect` / `DetectReader` load the limit once, atomically (see Lemmas/DetectTie.lean) -/
+theorem tie_single_limit : Mime.DetectTie.SingleLimit := Mime.DetectTie.single_limit
 
 end Mime.C13
